@@ -3,17 +3,18 @@ import NimaVerif.Model.DataReader
 /-!
 SPEC (C13): what a Python value denotes as data (`denote`), what each container context is expected
 to read back as (`expected`, `readCtx`), the property's domain (`valInDomain`, `ctxInDomain`) and the
-decidable side condition under which the code does keep the value (`…Readable`).
+decidable side condition under which the code does keep the value (`…Readable`; every value of the
+domain satisfies it), and the data the API must refuse (`dataOutOfRange`).
 -/
 namespace Nima
 
 /-! ## Denotation -/
 
-/-- A Python float `repr` as (sign, unsigned decimal literal). -/
+/-- A Python float `repr` as (sign, the number its unsigned decimal literal denotes). -/
 def floatData (r : Text) : Data :=
   match r with
-  | '-' :: t => .float true t
-  | t => .float false t
+  | '-' :: t => .float true (decValue t)
+  | t => .float false (decValue t)
 
 mutual
 def denoteE : Elem → Data
@@ -69,16 +70,15 @@ def readCtx : Ctx → Text → Option Data
 /-! ## The property's domain -/
 
 def unsignedRepr (r : Text) : Text := match r with | '-' :: t => t | t => t
-def isNegRepr (r : Text) : Bool := match r with | '-' :: _ => true | _ => false
+def isNegText (r : Text) : Bool := match r with | '-' :: _ => true | _ => false
 
 /-- exponent of a Python float repr: `e`, a sign, at least two digits -/
 def isPyExp : Text → Bool
   | 'e' :: s :: ds => (s == '+' || s == '-') && ds.length ≥ 2 && ds.all isAsciiDigit
   | _ => false
 
-/-- `repr(x)` of a finite Python float: `-?D+.D+` or `-?D(.D+)?e[+-]DD+`, no leading zeros. -/
-def isPyFloatRepr (r : Text) : Bool :=
-  let u := unsignedRepr r
+/-- the unsigned part of `repr(x)` of a finite Python float: `D+.D+` or `D(.D+)?e[+-]DD+`, no leading zeros -/
+def isPyFloatBody (u : Text) : Bool :=
   let ip := u.takeWhile isAsciiDigit
   (!ip.isEmpty && (ip == ['0'] || ip.head? != some '0')) &&
   match u.dropWhile isAsciiDigit with
@@ -89,11 +89,14 @@ def isPyFloatRepr (r : Text) : Bool :=
   | 'e' :: ex => isPyExp ('e' :: ex) && ip.length == 1 && ip != ['0']
   | _ => false
 
+/-- `repr(x)` of a finite Python float: `-?D+.D+` or `-?D(.D+)?e[+-]DD+`, no leading zeros. -/
+def isPyFloatRepr (r : Text) : Bool := isPyFloatBody (unsignedRepr r)
+
 mutual
 def elemInDomain : Elem → Bool
   | .none => true
   | .bool _ => true
-  | .int _ => true
+  | .int i => i.natAbs ≤ nixIntMax
   | .float r => isPyFloatRepr r
   | .str s => !hasInterp s
   | .list xs => elemsInDomain xs
@@ -105,7 +108,9 @@ end
 def dictKeys (kvs : List (Text × PyVal)) : List Text := kvs.map (·.1)
 
 mutual
-/-- identifier keys (not keywords), pairwise distinct; strings without `${`; floats are reprs -/
+/-- identifier keys (not keywords), pairwise distinct; strings without `${`; floats are reprs;
+    integers are those Nix can write (an integer beyond 64 bits is outside the domain: the
+    construction API refuses it with `ValueError`, `C13.refusal_exact`) -/
 def valInDomain : PyVal → Bool
   | .elem e => elemInDomain e
   | .dict kvs => keysNodup (kvs.map (·.1)) && kvsInDomain kvs
@@ -124,26 +129,32 @@ def ctxInDomain : Ctx → Bool
 
 /-! ## The side condition under which the rendering is faithful
 
-`inList` tells whether the value stands as a list element: a negative number is written with a bare
-minus sign, which only reads back where an operator expression may stand. Floats must happen to be
-Nix float tokens (Python reprs without a `.` are not), integers must fit 64 bits. -/
+The literal a float is spelled with must be a Nix float token of the same sign denoting the same
+number as the `repr` (true of every Python repr: `Lemmas/Value.lean`, `pyFloatRepr_litOk`), integers
+must fit 64 bits. (A negative number may stand anywhere: as a list element it is written in parentheses.) -/
+
+/-- the spelling `floatLiteral r` is a Nix float token, of the sign and the value of `r` -/
+def floatLitOk (r : Text) : Bool :=
+  isNixFloat (unsignedRepr (floatLiteral r)) &&
+  (isNegText (floatLiteral r) == isNegText r) &&
+  decide (decValue (unsignedRepr (floatLiteral r)) = decValue (unsignedRepr r))
 
 mutual
-def elemReadable (inList : Bool) : Elem → Bool
+def elemReadable : Elem → Bool
   | .none => true
   | .bool _ => true
-  | .int i => i.natAbs ≤ nixIntMax && !(inList && i < 0)
-  | .float r => isNixFloat (unsignedRepr r) && !(inList && isNegRepr r)
+  | .int i => i.natAbs ≤ nixIntMax
+  | .float r => floatLitOk r
   | .str s => !hasInterp s
   | .list xs => elemsReadable xs
 def elemsReadable : List Elem → Bool
   | [] => true
-  | x :: xs => elemReadable true x && elemsReadable xs
+  | x :: xs => elemReadable x && elemsReadable xs
 end
 
 mutual
 def valReadable : PyVal → Bool
-  | .elem e => elemReadable false e
+  | .elem e => elemReadable e
   | .dict kvs => keysNodup (kvs.map (·.1)) && kvsReadable kvs
 def kvsReadable : List (Text × PyVal) → Bool
   | [] => true
@@ -152,7 +163,7 @@ end
 
 mutual
 def exprReadable : Expr → Bool
-  | .raw e => elemReadable false e
+  | .raw e => elemReadable e
   | .aset bs _ => keysNodup (bs.map (·.1)) && bsReadable bs
 def bsReadable : List (Text × Expr) → Bool
   | [] => true
@@ -167,40 +178,22 @@ def ctxReadable : Ctx → Bool
   | .setItem d k v => valReadable (.dict d) && isDataKey k && valReadable v
   | .setItemOn d _ k v => valReadable (.dict d) && isDataKey k && valReadable v
 
-/-! ## The three documented defects, named directly
+/-! ## What must be refused
 
-For values of the domain, `…Readable` is equivalent to avoiding them (`Lemmas/Value.lean`,
-`readable_eq_avoids`): no negative number as a list element, no float whose repr lacks a `.`, no
-integer outside 64 bits. The harness classifies failing inputs with the same three tests. -/
+Data holding an integer Nix has no literal for (magnitude above `2^63 - 1`). -/
 
 mutual
-def elemAvoids (inList : Bool) : Elem → Bool
-  | .none => true
-  | .bool _ => true
-  | .int i => i.natAbs ≤ nixIntMax && !(inList && i < 0)
-  | .float r => (unsignedRepr r).contains '.' && !(inList && isNegRepr r)
-  | .str _ => true
-  | .list xs => elemsAvoid xs
-def elemsAvoid : List Elem → Bool
-  | [] => true
-  | x :: xs => elemAvoids true x && elemsAvoid xs
+def dataOutOfRange : Data → Bool
+  | .int i => i.natAbs > nixIntMax
+  | .list xs => dataListOutOfRange xs
+  | .attrs kvs => dataKvsOutOfRange kvs
+  | _ => false
+def dataListOutOfRange : List Data → Bool
+  | [] => false
+  | x :: xs => dataOutOfRange x || dataListOutOfRange xs
+def dataKvsOutOfRange : List (Text × Data) → Bool
+  | [] => false
+  | (_, v) :: rest => dataOutOfRange v || dataKvsOutOfRange rest
 end
-
-mutual
-def valAvoids : PyVal → Bool
-  | .elem e => elemAvoids false e
-  | .dict kvs => kvsAvoid kvs
-def kvsAvoid : List (Text × PyVal) → Bool
-  | [] => true
-  | (_, v) :: rest => valAvoids v && kvsAvoid rest
-end
-
-def ctxAvoids : Ctx → Bool
-  | .fromDict d => kvsAvoid d
-  | .values d => kvsAvoid d
-  | .binding _ v => valAvoids v
-  | .list xs => elemsAvoid xs
-  | .setItem d _ v => kvsAvoid d && valAvoids v
-  | .setItemOn d _ _ v => kvsAvoid d && valAvoids v
 
 end Nima
